@@ -199,7 +199,7 @@ def invert (self : Bytes) : Bytes := pack (invertUnpacked (unpack self))
 The two `for` loops walk `inputs` zipped with `scratch` (both of length `n`), forwards and then backwards
 (`.rev()`); they are structural recursions on the zipped list.  `scratch = vec![one; n]` is created as in the
 source although every entry is overwritten in the first pass.  `debug_assert!(acc.pack() != Scalar::ZERO)` is
-compiled out in release builds (theorem `batch_invert_acc_nonzero` shows it cannot fire when all inputs are
+compiled out in release builds (`Dalek.Props.C15.Facts.batch_invert_acc_nonzero_scalar`: it cannot fire when all inputs are
 non-zero); `Zeroize::zeroize(&mut scratch)` has no effect on the result. -/
 
 /-- first pass: `for (input, scratch) in inputs.iter_mut().zip(scratch.iter_mut())`; returns the new
